@@ -139,6 +139,22 @@ def isInterleaveB {α : Type} [DecidableEq α] : List (List α) → List α → 
     | some hs' => isInterleaveB hs' σ
     | none => false
 
+/-- remove `x` from the head of thread number `i` -/
+def popAt {α : Type} [DecidableEq α] (x : α) : Nat → List (List α) → Option (List (List α))
+  | _, [] => none
+  | 0, [] :: _ => none
+  | 0, (y :: t) :: hs => if y = x then some (t :: hs) else none
+  | i + 1, h :: hs => (popAt x i hs).map (h :: ·)
+
+/-- executable check of an interleaving that says which thread every message is taken from
+(needed when identical messages occur in several threads; sound for `Interleave`, see Props) -/
+def isInterleaveIdxB {α : Type} [DecidableEq α] : List (List α) → List (Nat × α) → Bool
+  | hs, [] => hs.all (·.isEmpty)
+  | hs, (i, x) :: σ =>
+    match popAt x i hs with
+    | some hs' => isInterleaveIdxB hs' σ
+    | none => false
+
 /-- executable `LastOf` -/
 def lastOfB {α κ : Type} [DecidableEq α] [DecidableEq κ] (key : α → κ) (x : α) : List α → Bool
   | [] => false
